@@ -81,6 +81,13 @@ claim("C18",
       "Proof of the admission guards at every site that creates a handshaker (not connected, not banned, not blocked when the blocklist applies) and of the address filters in front of the candidate queue. Partial: the segment tree is recursive pointer code (not under contract); the candidate queue as a bounded priority set depends on an external btree.",
       "DESIGN.md §4 C18")
 
+claim("C07",
+      "Proof that every file or directory the archive extractor creates was first checked to lie under the destination "
+      "directory plus separator (ghost-tracked prefix test on exactly that name), and that nothing else in rain calls the "
+      "extractor's writer. Partial: semantics of path/filepath and strings are assumed; metainfo path cleaning is covered "
+      "only as far as listed in the evidence.",
+      "DESIGN.md §4 C07")
+
 na("C10", "liveness/progress over unbounded schedules of several goroutines: a function contract cannot state fairness or progress measures (DESIGN.md §4 C10)")
 na("C20", "data races and lock-ups quantify over schedules; the contracts are sequential and assume the single-owner discipline C20 asks to prove (DESIGN.md §4 C20)")
 for p in ["C01", "C02", "C04", "C05", "C06", "C07", "C08", "C09", "C11", "C12", "C13", "C14", "C15", "C17", "C18", "C19"]:
